@@ -15,7 +15,7 @@ class C07(ProgramProperty):
     id = 'C07'
     technique = ('grammar-based property testing of f-string bodies (pre-PEP 701 rules) with a differential oracle: CPython JoinedStr / FormattedValue structure, '
                  'inner-expression positions, and re-parsing source[range]')
-    level_text = ('~30k (quick) / 1M (thorough) generated f-strings (literal text, escapes, doubled braces, fields holding arbitrary expressions with brackets, '
+    level_text = ('~80k (quick) / 1M (thorough) generated f-strings (literal text, escapes, doubled braces, fields holding arbitrary expressions with brackets, '
                   'strings, comparisons, lambdas, walrus, !=, conversions, specs with nested fields, = forms; single / triple, raw / non-raw, concatenated with plain '
                   'and other f-strings): the whole tree must equal CPython\'s, every expression inside a field must carry CPython\'s byte range, and slicing the '
                   'source by that range must re-parse to the same expression')
@@ -24,7 +24,7 @@ class C07(ProgramProperty):
             'doubled brace, concatenation, triple / raw, bracket / colon / != inside the expression}; distinct by case hash')
 
     def budget(self, tier):
-        return 30000 if tier == 'quick' else 1000000
+        return 80000 if tier == 'quick' else 1000000
 
     def avoid(self):
         return {'C01-F1', 'C01-F2', 'C01-F3', 'C01-F4', 'C01-F22', 'C01-F23', 'C01-F24'}
